@@ -9,6 +9,7 @@ Spec mini-language for arguments:
   ('R3',) ('T3',) ('R2',) ('T2',)  group matrices      ('Q',) unit quaternion 4-vector ('V',4) is a general one
   ('SK3',) ('SKA3',) ('SK2',) ('SKA2',) algebra matrices
   ('OBJ', cls)    a single-valued library object      ('OBJM', cls) multi-valued
+  ('AN3',) N x 3 array of angles, one value per row
   ('P3N',) 3xN points ('P2N',) 2xN points ('FLAG',) bool ('NONE',) literal None
 Entry: dict(name, target, args=[specs], kwargs={name: spec}, recv=None|spec, tags=set)
 target: 'base.<fn>' | '<Class>.<classmethod or ctor ''>' | 'm:<Class>.<method>' (needs recv) | 'p:<Class>.<property>'
@@ -131,6 +132,14 @@ CLASSES = [
     E('m:Plucker.closest', [V(3)], recv=('OBJ', 'Plucker')), E('m:Plucker.point', [V(None)], recv=('OBJ', 'Plucker')),
     E('m:Plucker.intersect_plane', [V(4)], recv=('OBJ', 'Plucker')),
     E('m:SE3.interp', [V(None, )], recv=('OBJ', 'SE3'), tags={'s01'}),
+    # ---- entries added later go below this line: finding witnesses refer to entries by position
+    E('SO3.Ry', [V(None)], {'unit': U}, tags={'unit_in:vec'}), E('SO3.Rz', [V(None)], {'unit': U}, tags={'unit_in:vec'}),
+    # N x 3 sequence forms (one value per row)
+    E('SO3.Eul', [('AN3',)], {'unit': U}, tags={'unit_in:vec'}), E('SO3.RPY', [('AN3',)], {'unit': U, 'order': O}, tags={'unit_in:vec', 'order'}),
+    E('SE3.Eul', [('AN3',)], {'unit': U}, tags={'unit_in:vec'}), E('SE3.RPY', [('AN3',)], {'unit': U, 'order': O}, tags={'unit_in:vec', 'order'}),
+    E('SE3.Rx', [V(None)], {'unit': U}, tags={'unit_in:vec'}), E('SE3.Ry', [V(None)], {'unit': U}, tags={'unit_in:vec'}),
+    E('SE3.Rz', [V(None)], {'unit': U}, tags={'unit_in:vec'}),
+    E('UnitQuaternion.Ry', [V(None)], {'unit': U}, tags={'unit_in:vec'}), E('UnitQuaternion.Rz', [V(None)], {'unit': U}, tags={'unit_in:vec'}),
 ]
 
 
@@ -157,6 +166,8 @@ def gen_value(rng, spec, n=None):
         if L is None:
             L = int(rng.integers(1, 6))
         return gen.vec(rng, L, 1e-2, 1e2)
+    if k == 'AN3':
+        return rng.uniform(-3, 3, size=(int(rng.integers(2, 5)), 3))
     if k == 'VSMALL3':
         a = gen.unit_axis(rng) * rng.uniform(0.05, 0.6)
         return a
